@@ -179,8 +179,10 @@ def hex_grid_rules(chk, repo, clause):
             c[0].bound.get('hex') == S('hex') and c[0].bound.get('radius') == S('radius') and c[0].bound.get('rotate') == S('rotate')
         chk.ob(clause, 'N-formula', f.key, '(row, col) = (-y, x)', ok, fmt(p.ret)[:160], f.loc(p.node))
     f, paths, _ = analyse(repo, 'segmented.hex_segments')
-    ok_pitch = False
+    ok_pitch = None
     for p in returns(paths):
+        if p.calls('segmented.hex_to_rc'):
+            ok_pitch = False
         for e in p.calls('segmented.hex_to_rc'):
             ok_pitch = e.bound.get('radius') == S('seg_radius') + S('seg_gap') / 2 and e.bound.get('rotate') == S('rotate')
         for e in p.calls('shape.hexagon'):
@@ -189,7 +191,8 @@ def hex_grid_rules(chk, repo, clause):
                 rc = p.calls('segmented.hex_to_rc')
                 ok_pitch = ok_pitch and rc and sh == Tup([nf.index(rc[0].result, C(0)), nf.index(rc[0].result, C(1))])
     chk.ob(clause, 'N-formula', f.key, 'segment pitch = seg_radius + seg_gap/2; each ring segment is shifted to its grid position',
-           bool(ok_pitch), '', f.loc())
+           bool(ok_pitch) if ok_pitch is not None else None,
+           '' if ok_pitch is not None else 'undecided: the grid-position call is not visible in hex_segments itself', f.loc())
 
 
 def sampling_rules(chk, repo, clause):
@@ -280,19 +283,18 @@ def rescale_unitary_rule(chk, repo, clause):
 
 
 def bayer_tiling_rule(chk, repo, clause):
-    f, paths, _ = analyse(repo, 'detector.collect_charge_bayer', config={'flatten': TRUE})
-    rets = returns(paths)
-    if not rets:
-        raise AnalysisError('collect_charge_bayer: no path')
-    for p in rets:
-        img = p.env.get('img')
-        osf = S('oversample')
-        ish = nf.attr(img, 'shape') if isinstance(img, Poly) else None
+    from .c16 import bayer_channels
+    f = repo.func('detector.collect_charge_bayer')
+    osf = S('oversample')
+    for chans in bayer_channels(repo):
         for col in ('red', 'green', 'blue'):
-            mos = p.env.get(f'{col}_mosaic')
+            v, es, qc = chans[col]
+            img = es[2][1]
+            ish = nf.attr(img, 'shape')
+            mos = v / Poly.atom(es)
             a = mos.single_atom() if isinstance(mos, Poly) else None
-            ok, det = False, fmt(mos)[:200]
-            if a is not None and is_app(a, ('kron', 'repeat')) and ish is not None:
+            ok, det = None, fmt(mos)[:200]
+            if a is not None and is_app(a, ('kron', 'repeat')):
                 tile = a[2][0].single_atom() if isinstance(a[2][0], Poly) else None
                 if tile is not None and is_app(tile, 'tile') and isinstance(tile[2][1], Tup) and len(tile[2][1]) == 2:
                     ker = tile[2][0]
